@@ -138,13 +138,14 @@ def walk_type(t, out):
 
 BUILTIN_LEAVES = [object, type, int, float, bool, str, bytes, tuple, frozenset, list, dict, set,
                   type(None), OrderedDict, np.ndarray, np.generic, np.float64, np.int64, complex, slice,
-                  functools.partial]
+                  functools.partial, __import__("collections").abc.Sequence]
 
 
 class Universe:
     """Leaf classes with stable ids (sorted by qualified name) and the live issubclass matrix."""
 
     def __init__(self):
+        self.bare_elements = 0
         from funsor.terms import Funsor
         from funsor.ops.op import Op
         import funsor.domains as D
@@ -252,6 +253,12 @@ class Universe:
             return ("w", self.enc(s.__args__[0]))
         if isinstance(s, GenericTypeMeta):
             return ("n", self.enc(s))
+        if isinstance(s, type) and s in self.ids:
+            # a plain class handed to multipledispatch WITHOUT the typing_wrap adapter: representable
+            # (`⟨false, .cls k⟩`), but not what the adapter is specified to produce: the table obligation
+            # `reg_adapter_normal` fails on it
+            self.bare_elements += 1
+            return ("n", ("c", self.ids[s]))
         raise Unsupported(f"signature element is neither wrapped nor a GenericTypeMeta class: {s!r}")
 
     def enc_slot(self, s):
@@ -562,6 +569,14 @@ def state():
 
 
 def extract(ctx):
+    try:
+        _extract(ctx)
+    except Exception as e:   # noqa
+        import traceback
+        ctx.fail("correspondence", "C16.cannot-follow:extract", detail=f"{type(e).__name__}: {e}\n" + traceback.format_exc()[-1500:])
+
+
+def _extract(ctx):
     U, D = state()
     hdr = "-- GENERATED by fv/harness/c16.py extract() from the live funsor at FUNSOR_REPO; do not edit.\n"
     t = [hdr, "import FunsorVerif.Model.C16\nnamespace FV.Gen.C16\nopen FV.C16\n"]
@@ -614,6 +629,7 @@ def extract(ctx):
     k.append("end FV.Gen.C16\n")
     ch3 = write_if_changed(GEN / "C16Key.lean", "\n".join(k))
     ctx.extra["cache_key"] = kf_
+    ctx.extra["bare_signature_elements"] = U.bare_elements
     ctx.extra["extract"] = dict(leaves=len(U.names), dispatchers=len(D.items),
                                 signatures=sum(len(it["sigs"]) for it in D.items),
                                 register_decorators_in_source=ast_register_count(),
@@ -2184,7 +2200,7 @@ def part_supercedes(ctx, U, D):
     try:
         es = [U.enc_sig(x) for x in ss]
     except Unsupported as e:
-        ctx.infra_errors.append(f"synthetic signature not encodable: {e}")
+        ctx.fail("correspondence", "C16.cannot-follow:synthetic-signature", detail=str(e))
         return
     for i, a in enumerate(ss):
         for j, b in enumerate(ss):
@@ -2829,6 +2845,146 @@ def part_register_histories(ctx, U, use_driver=True):
                 return
 
 
+# ----------------------------------------------------------------------------------------
+# the relation the DISPATCHER uses: issubclass on typing_wrap'ed elements
+# ----------------------------------------------------------------------------------------
+
+PY_ADAPTER = """
+# replay for C16: the relation multipledispatch sees (issubclass on typing_wrap'ed pattern entries / argument types)
+import typing, collections.abc, itertools
+from typing import Any, Tuple, FrozenSet, Union
+import numpy
+import funsor; funsor.set_backend("numpy")
+import funsor.ops, funsor.ops.op, funsor.terms, funsor.tensor, funsor.domains, funsor.gaussian, funsor.delta, funsor.cnf
+from funsor.typing import typing_wrap, deep_issubclass
+from funsor.registry import PartialDispatcher
+{body}
+"""
+
+
+def adapter_view(a, b):
+    """issubclass as multipledispatch calls it on adapted elements: 'T' | 'F' | 'E'"""
+    try:
+        return "T" if issubclass(typing_wrap(a), typing_wrap(b)) else "F"
+    except TypeError:
+        return "E"
+
+
+def intended_alt(U, tr):
+    """the adapter as specified: GenericTypeMeta classes stay, everything else is wrapped"""
+    return ("n", tr) if tr[0] == "g" else ("w", tr)
+
+
+def part_adapter_relation(ctx, U, D, use_driver=True):
+    import collections.abc as cabc
+    import funsor.ops as ops
+    from funsor.terms import Funsor, Number
+    from funsor.tensor import Tensor
+    rng = ctx.rng
+    T = typing
+    pool = set()
+    for it in D.items:
+        for sig in it["enc"]:
+            for s_ in sig:
+                for a in (s_[1] if s_[0] == "v" else [s_]):
+                    pool.add(a[1])
+    pool = sorted(pool, key=repr)
+    rng.shuffle(pool)
+    pool = pool[: (60 if ctx.tier == "quick" else 200)]
+    gen = [T.Union[ops.AddOp, ops.MulOp], T.Union[ops.AddOp, ops.ExpOp], T.Union[ops.LogaddexpOp, ops.NullOp], ops.AssociativeOp, ops.AddOp,
+           ops.op.Op, ops.op.BinaryOp, T.Tuple[int, int], T.Tuple[int, ...], T.Tuple[Tensor, ...], T.Tuple, tuple, T.FrozenSet[str],
+           T.FrozenSet, frozenset, cabc.Sequence, object, int, str, bool, T.Union[int, str], T.Union[Number, Tensor], Funsor, Tensor,
+           T.Tuple[T.Union[Number, Tensor], ...], T.Any, np.ndarray, T.Union[T.Tuple[int, int], frozenset]]
+    trees = list(pool)
+    for x in gen:
+        try:
+            trees.append(U.enc(x))
+        except Unsupported:
+            ctx.count("adapter:generated-not-in-table")
+    trees = sorted(set(trees), key=repr)
+    real = {}
+    reqs = []
+    for a in trees:
+        ra = U.dec(a)
+        for b in trees:
+            rb = U.dec(b)
+            v = adapter_view(ra, rb)
+            real[(a, b)] = v
+            ctx.count(f"adapter:{v}")
+            # ---- property-level oracles (python only) --------------------------------------
+            exp = None
+            if b[0] == "c" and b[1] not in (U.kTuple, U.kFs):
+                if a[0] == "u" and all(m[0] in ("c", "g") for m in a[1]):
+                    exp = all(U.L(m[1], b[1]) for m in a[1])           # a union of classes is below their common base
+                elif a[0] in ("t", "tv", "tb", "f", "fb"):
+                    exp = U.L(org(U, a), b[1])                          # a tuple/frozenset type is below the ABCs/bases of its origin
+                elif a[0] in ("c", "g"):
+                    exp = U.L(a[1], b[1])
+            if exp is not None and v != "E" and (v == "T") != exp:
+                ctx.fail("input", "C16.matching-relation-inconsistent",
+                         witness=dict(sub=tshow(U, a), sup=tshow(U, b), dispatcher_sees=v, members_or_origin_below=exp, tree=[a, b]),
+                         expected=f"issubclass(typing_wrap(a), typing_wrap(b)) is {exp}", got=v,
+                         python=PY_ADAPTER.format(body=f"a = {pyrepr(U, a)}\nb = {pyrepr(U, b)}\n"
+                                                  f"got = issubclass(typing_wrap(a), typing_wrap(b))\nprint(got, deep_issubclass(a, b))\nFAILS = (got is not {exp})"))
+                return
+            if a == b and v == "F" and union_ok(a):
+                ctx.fail("input", "C16.reflexivity", witness=dict(type=tshow(U, a), relation="issubclass on typing_wrap'ed types"),
+                         expected="True", got="False",
+                         python=PY_ADAPTER.format(body=f"a = {pyrepr(U, a)}\nFAILS = not issubclass(typing_wrap(a), typing_wrap(a))"))
+                return
+            reqs.append(f"C16 slot {tsx(intended_alt(U, a))} {tsx(intended_alt(U, b))}")
+    if use_driver:
+        ans = ctx.driver.ask(reqs)
+        i = 0
+        for a in trees:
+            for b in trees:
+                m = ans[i][3:]
+                i += 1
+                ctx.count("adapter:pairs-vs-model")
+                if m != real[(a, b)]:
+                    ctx.fail("correspondence", "C16.adapter-relation-vs-model",
+                             witness=dict(sub=tshow(U, a), sup=tshow(U, b), dispatcher_sees=real[(a, b)], model_slotSubE=m, tree=[a, b]),
+                             expected=m, got=real[(a, b)],
+                             python=PY_ADAPTER.format(body=f"a = {pyrepr(U, a)}\nb = {pyrepr(U, b)}\nprint(issubclass(typing_wrap(a), typing_wrap(b)))\nFAILS = True"))
+                    return
+                ctx.case(nontrivial_key=("adapter", a, b) if a[0] not in ("c",) or b[0] not in ("c",) else None)
+    # ---- registration-order independence when a most specific pattern exists -------------------
+    scenarios = [
+        ("union-vs-base", [("union", (T.Union[ops.AddOp, ops.MulOp],)), ("assoc", (ops.AssociativeOp,)), ("op", (ops.op.Op,))],
+         [((ops.add,), "funsor.ops.add"), ((ops.mul,), "funsor.ops.mul"), ((ops.logaddexp,), "funsor.ops.logaddexp"), ((ops.exp,), "funsor.ops.exp")]),
+        ("container-vs-abc", [("seq", (cabc.Sequence,)), ("ints", (T.Tuple[int, ...],)), ("obj", (object,))],
+         [(((1, 2),), "(1, 2)"), ((("a", 1),), "('a', 1)"), (("s",), "'s'"), ((3,), "3"), ((frozenset([1]),), "frozenset([1])")]),
+        ("union-second-arg", [("u", (ops.op.Op, T.Union[int, bool])), ("o", (ops.op.Op, object)), ("a", (ops.AddOp, object)), ("au", (ops.AddOp, T.Union[int, bool]))],
+         [((ops.add, 1), "funsor.ops.add, 1"), ((ops.mul, True), "funsor.ops.mul, True"), ((ops.add, "s"), "funsor.ops.add, 's'"), ((ops.exp, 2.5), "funsor.ops.exp, 2.5")]),
+    ]
+    for scname, pats, samples in scenarios:
+        def oracle(args):
+            """least matching pattern by the RAW relation (deep_isinstance / deep_issubclass), or None"""
+            m = [(n, p) for n, p in pats if len(p) == len(args) and all(deep_isinstance(x, q) for x, q in zip(args, p))]
+            best = [n for n, p in m if all(all(deep_issubclass(x, y) for x, y in zip(p, q)) for _, q in m)]
+            return ("default" if not m else best[0] if len(best) == 1 else None)
+        for order in itertools.permutations(range(len(pats))):
+            d = PartialDispatcher(lambda *a: "default")
+            for i in order:
+                n, p = pats[i]
+                d.register(*p)((lambda n: (lambda *a: n))(n))
+            for args, asrc in samples:
+                want = oracle(args)
+                with warnings.catch_warnings():
+                    warnings.simplefilter("ignore")
+                    got = d(*args)
+                ctx.count("adapter:order-dispatches")
+                if want is not None and got != want:
+                    ctx.fail("input", "C16.chosen-rule-depends-on-registration-order",
+                             witness=dict(scenario=scname, registration_order=[pats[i][0] for i in order], args=asrc, got_rule=got, most_specific=want),
+                             expected=want, got=got,
+                             python=PY_ADAPTER.format(body="import funsor.ops as ops\nPATS = [" + ", ".join(
+                                 f"({n!r}, (" + "".join((pyrepr(U, U.enc(x))) + ", " for x in p) + "))" for n, p in pats) + "]\n"
+                                 f"d = PartialDispatcher(lambda *a: 'default')\nfor i in {list(order)}:\n    n, p = PATS[i]\n"
+                                 f"    d.register(*p)((lambda n: (lambda *a: n))(n))\ngot = d({asrc})\nprint(got)\nFAILS = (got != {want!r})"))
+                    return
+
+
 def part_known_ambiguity(ctx, U, D, kf_cases):
     """dedicated stream for KF-precondition-ambiguous-patterns: two registered patterns overlap, neither
     is more specific, nothing more specific covers the overlap"""
@@ -2912,7 +3068,27 @@ def part_known_finding(ctx, U):
 # entry points
 # ----------------------------------------------------------------------------------------
 
+def guarded(ctx, name, fn, *a, **kw):
+    """run one part; anything the harness cannot follow (a representation the translator does not know,
+    an exception out of the code under test) becomes a broken correspondence — the runner then searches
+    for a concrete failing input with the python-side oracles — never an infrastructure error"""
+    import traceback
+    try:
+        return fn(*a, **kw)
+    except Exception as e:   # noqa
+        ctx.fail("correspondence", f"C16.cannot-follow:{name}", detail=f"{type(e).__name__}: {e}\n" + traceback.format_exc()[-1500:])
+        return None
+
+
 def correspond(ctx):
+    try:
+        _correspond(ctx)
+    except Exception as e:   # noqa
+        import traceback
+        ctx.fail("correspondence", "C16.cannot-follow:correspond", detail=f"{type(e).__name__}: {e}\n" + traceback.format_exc()[-1500:])
+
+
+def _correspond(ctx):
     ctx.rule = ("(1) all ordered pairs of a pool of type expressions = every type (and sub-expression) in any registered "
                 "signature + argument types observed in a workload of real funsor computations + random compositions "
                 "(Tuple fixed/variadic/bare, FrozenSet, Union, parametrised funsor classes, plain classes): real "
@@ -2935,24 +3111,25 @@ def correspond(ctx):
         observed, errs = observe_workload(D)
     ctx.count("workload:dispatches-observed", len(observed))
     ctx.count("workload:steps-raised", errs)
-    clean = part_subtype(ctx, U, D, observed)
+    clean = guarded(ctx, "subtype", part_subtype, ctx, U, D, observed)
     if clean is None or ctx.infra_errors:
         return
-    part_values(ctx, U, D, clean, observed)
-    part_rebuilt_terms(ctx, U, D, clean)
-    part_supercedes(ctx, U, D)
-    part_container_registries(ctx, U)
-    part_deep_type_values(ctx, U)
-    part_register_histories(ctx, U)
+    guarded(ctx, "values", part_values, ctx, U, D, clean, observed)
+    guarded(ctx, "rebuilt-terms", part_rebuilt_terms, ctx, U, D, clean)
+    guarded(ctx, "adapter-relation", part_adapter_relation, ctx, U, D)
+    guarded(ctx, "supercedes", part_supercedes, ctx, U, D)
+    guarded(ctx, "container-registries", part_container_registries, ctx, U)
+    guarded(ctx, "deep-type-values", part_deep_type_values, ctx, U)
+    guarded(ctx, "register-histories", part_register_histories, ctx, U)
     kf_cases = []
-    r = part_dispatch(ctx, U, D, observed, kf_cases=kf_cases)
-    part_known_ambiguity(ctx, U, D, kf_cases)
+    r = guarded(ctx, "dispatch", part_dispatch, ctx, U, D, observed, kf_cases=kf_cases)
+    guarded(ctx, "known-ambiguity", part_known_ambiguity, ctx, U, D, kf_cases)
     if r is not None:
         cases, results = r
-        cu = part_cache_and_order(ctx, U, D, cases, results)
+        cu = guarded(ctx, "cache-and-order", part_cache_and_order, ctx, U, D, cases, results)
         if cu is not None:
             usable, base = cu
-            part_subprocess(ctx, U, D, cases, usable, base)
+            guarded(ctx, "subprocess", part_subprocess, ctx, U, D, cases, usable, base)
     part_known_finding(ctx, U)
     ctx.assumptions.append("multipledispatch._toposort is taken as 'returns some linear extension'; the ordering it produced in this "
                            "process is checked against the model's supercedes (Props/C16/Reg.lean, by decide)")
@@ -2963,41 +3140,54 @@ def correspond(ctx):
 def search(ctx, broken):
     """a proof / table obligation / correspondence broke: hunt for a concrete failing input using only
     python-side oracles (real relation axioms, set-theoretic membership, most-specific oracle)."""
-    U, D = state()
-    with warnings.catch_warnings():
-        warnings.simplefilter("ignore")
-        observed, _ = observe_workload(D)
+    try:
+        U, D = state()
+        with warnings.catch_warnings():
+            warnings.simplefilter("ignore")
+            observed, _ = observe_workload(D)
+    except Exception:   # noqa
+        ctx.count("search:setup-raised")
+        return
     before = len([f for f in ctx.failures if f.witness is not None and f.kind == "input"])
 
     def found():
         return len([f for f in ctx.failures if f.witness is not None and f.kind == "input"]) > before
     old_tier = ctx.tier
     ctx.tier = "thorough"
+    def quiet(fn, *a, **kw):
+        try:
+            return fn(*a, **kw)
+        except Exception:   # noqa
+            ctx.count("search:part-raised")
+            return None
     try:
-        clean = part_subtype(ctx, U, D, observed, use_driver=False)
+        clean = quiet(part_subtype, ctx, U, D, observed, use_driver=False)
+        if found():
+            return
+        quiet(part_adapter_relation, ctx, U, D, use_driver=False)
         if found():
             return
         if clean:
-            part_values(ctx, U, D, clean, observed, use_driver=False)
+            quiet(part_values, ctx, U, D, clean, observed, use_driver=False)
         if found():
             return
         if clean:
-            part_rebuilt_terms(ctx, U, D, clean, use_driver=False)
+            quiet(part_rebuilt_terms, ctx, U, D, clean, use_driver=False)
         if found():
             return
-        part_container_registries(ctx, U, use_driver=False)
+        quiet(part_container_registries, ctx, U, use_driver=False)
         if found():
             return
-        part_deep_type_values(ctx, U, use_driver=False)
+        quiet(part_deep_type_values, ctx, U, use_driver=False)
         if found():
             return
-        part_register_histories(ctx, U, use_driver=False)
+        quiet(part_register_histories, ctx, U, use_driver=False)
         if found():
             return
-        r = part_dispatch(ctx, U, D, observed, use_driver=False)
+        r = quiet(part_dispatch, ctx, U, D, observed, use_driver=False)
         if found() or r is None:
             return
         cases, results = r
-        part_cache_and_order(ctx, U, D, cases, results)
+        quiet(part_cache_and_order, ctx, U, D, cases, results)
     finally:
         ctx.tier = old_tier
